@@ -335,6 +335,9 @@ class CExec:
                     return CV(ty, v.t)
                 return CV(ty, z3.fpToFP(RNE, v.t, fp_sort(ty)))
             if v.ty.is_int():
+                if v.b is not None:
+                    # 0/1-valued integer: exactly 1.0 or 0.0 (the flag is kept for the 0/1-factor product idiom)
+                    return CV(ty, z3.If(v.b, z3.FPVal(1.0, fp_sort(ty)), z3.FPVal(0.0, fp_sort(ty))), b=v.b)
                 if z3.is_int_value(v.t):
                     return CV(ty, z3.fpToFP(RNE, z3.ToReal(v.t), fp_sort(ty)))
                 # (double) of a symbolic integer: an uninterpreted function (same symbol on the spec side), because
@@ -960,6 +963,10 @@ class CExec:
         m = re.match(r"__builtin_(s|u)?(add|sub|mul)(l|ll)?_overflow$", name)
         if m:
             return self.builtin_overflow(st, m, argn, n)
+        if name in ("copysign", "copysignf", "__builtin_copysign", "__builtin_copysignf"):
+            x, y = self.ev(st, argn[0]), self.ev(st, argn[1])
+            self.assumptions.add("copysign(x, y) returns |x| with the sign bit of y (C11 7.12.11.1)")
+            return CV(ty, z3.If(z3.fpIsNegative(y.t), z3.fpNeg(z3.fpAbs(x.t)), z3.fpAbs(x.t)))
         if name in ("fmod", "fmodf"):
             x, y = self.ev(st, argn[0]), self.ev(st, argn[1])
             return CV(ty, self.fmod(st, x.t, y.t, ty))
